@@ -177,7 +177,9 @@ def w_words(acc, nwords, first_word, small):
     harness.run_cases(acc, "pair", o_pair, it, distinct_by_construction=True)
 
 
-GROUPS = ["{Simon and Schuster}", "{Procter {\\&} Gamble and Co.}", "{{a} and b}", "{a {b} and {c} and d}", "{{{x}} and {y {z} and w}}", "{and}", "{A and}{ and B}"]
+GROUPS = ["{Simon and Schuster}", "{Procter {\\&} Gamble and Co.}", "{{a} and b}", "{a {b} and {c} and d}", "{{{x}} and {y {z} and w}}", "{and}", "{A and}{ and B}",
+          # an escaped brace inside the group does not end it: the ` and ` after it is still protected
+          "{Barnes\\} and Noble}", "{a \\{ and b}", "{x\\} and {y\\{ and z} and w}"]
 TEMPLATES = ["%s", "Xx %s", "%s, Xx", "von %s, Jr, Xx", "%s Yy", "xx %s"]
 
 
